@@ -100,6 +100,7 @@ def parsed_rows(index_html):
     return out
 
 
+RAW_FILE = re.compile(r'<tr><td colspan="6">(?:<a href="[^"]*">)?([^<]*)(?:</a>)?</td></tr>')
 RAW_MSG = re.compile(r'<tr class="[^"]*issue">(?:<td>(?:<a [^>]*>)?[^<]*(?:</a>)?</td>){4}<td(?: class="[^"]*")?>([^<]*)</td>')
 
 ALPH = ["a", "b", "x", " ", "<", ">", "&", '"', "'", "ä", "中", "{", "}", ";", "#", "&lt;", "&amp;", "&#60;", "\\", "/", "%s", "="]
@@ -158,7 +159,7 @@ def check(run, replay):
         "Coq 8.16.1 kernel; extraction with ExtrOcamlBasic only; ocaml/driver.ml",
         "the script runs under the installed python3 with the real pygments %s (nothing is stubbed); xml.sax reads the generated result files" % __import__("pygments").__version__,
         "html.parser (convert_charrefs=True) stands for the HTML reader when the index is read back; the raw message cell is taken by a regular expression on the row",
-        "modelled, not verified: htmlreport/cppcheck-htmlreport html_escape, CppCheckHandler.handleVersion2 (file/line of the first location), main(): grouping by file, sorted(files.items()), sorted(errors, key=line), the cells of tr_str for line/id/severity/message, the is_file rule (line cell blank for '' / decode_errors / names ending in '*')",
+        "modelled, not verified: htmlreport/cppcheck-htmlreport html_escape, CppCheckHandler.handleVersion2 (file/line of the first location), main(): grouping by file, sorted(files.items()), sorted(errors, key=line), the cells of tr_str for line/id/severity/message, html_escape on the file header and id cells, the line cell (blank for '' / names ending in '*')",
         "not modelled: per-file pages (pygments output), stats.html, CWE links, author/blame columns, version-1 result files, remote --source-dir",
     ]
     run.assumptions += ["file names compare by code point in Python and by UTF-8 byte in the model (same order)"]
@@ -181,9 +182,9 @@ def check(run, replay):
     try:
         tab = escape_table_from_text()
         run.extra["escape_table_from_script"] = tab
-        for ch in [chr(c) for c in range(1, 128)]:
+        chars = [chr(c) for c in range(1, 128)]
+        for ch, got in zip(chars, model_eval("esc", [[ch.encode()] for ch in chars])):
             want = tab.get(ch, ch).encode()
-            got = model_eval("esc", [[ch.encode()]])[0]
             got = got[0] if got else b""
             if got != want:
                 run.violation("table:%02x" % ord(ch), "the script escapes %r as %r, the model as %r" % (ch, want, got), {"char": ch}, found_input=False)
@@ -247,49 +248,50 @@ def check(run, replay):
             rows = parsed_rows(html_text)
             raw_msgs = RAW_MSG.findall(html_text)
             # the model's rows for the same report
-            derr = ["lat.c"] if dot else []
-            flat = [len(derr)] + [x.encode() for x in derr]
+            flat = []
             for e in errs:
                 fn, ln = e["locs"][0] if e["locs"] else ("", 0)
                 flat += [fn.encode("utf-8"), ln, e["id"].encode("utf-8"), e["severity"].encode(), e["msg"].encode("utf-8"), e["inconclusive"]]
-            mo = model_eval("index", [flat])[0]
+            mo = model_eval("index", [flat])[0] if flat else []
             mrows = [tuple(x.decode("utf-8") for x in mo[i:i + 5]) for i in range(0, len(mo), 5)]
-            clean = not any(any(ch in v for ch in "<&") for e in errs for v in [e["id"]] + [l[0] for l in e["locs"][:1]])
+            hostile_used = any(any(ch in v for ch in "<&") for e in errs for v in [e["id"]] + [l[0] for l in e["locs"][:1]])
             import html as _html
             got = [(f or "", c[0], c[1], c[3], c[4]) for f, c in rows if len(c) >= 5]
-            want_m = [(r[0], r[1], r[2], r[3], _html.unescape(r[4])) for r in mrows]
+            # the model's cells are the raw (escaped) ones; an HTML reader decodes file, id and message
+            want_m = [(_html.unescape(r[0]), r[1], _html.unescape(r[2]), r[3], _html.unescape(r[4])) for r in mrows]
             for e in errs:
                 st["evaluations"] += 1
                 st["nontrivial"].add((k, id(e)))
-            b = ("hostile-names," if not clean else "") + ("dot" if dot else "abs")
+            b = ("hostile-names," if hostile_used else "") + ("dot" if dot else "abs")
             st["hist"][b] = st["hist"].get(b, 0) + 1
             rep = {"results_xml": open(os.path.join(d, "r.xml"), encoding="utf-8").read(), "source_dir": "." if dot else "absolute",
                    "how": "write the results file, create src/ with the named files, run python3 htmlreport/cppcheck-htmlreport --file=r.xml --report-dir=out --source-dir=%s in src/" % ("." if dot else "<abs src>")}
-            if clean:
-                if got != want_m:
-                    st["disagreements"] += 1
-                    bad = [(g, w) for g, w in zip(got, want_m) if g != w][:2] or [("count", len(got), len(want_m))]
-                    run.violation("index:" + hashlib.sha1(rep["results_xml"].encode()).hexdigest()[:10],
-                                  "index.html rows differ from the model's index_rows: %s" % (bad,), dict(rep, script_rows=got[:30], model_rows=want_m[:30]))
-                elif len(raw_msgs) == len(mrows) and raw_msgs != [r[4] for r in mrows]:
-                    run.violation("rawmsg:" + hashlib.sha1(rep["results_xml"].encode()).hexdigest()[:10],
-                                  "message cells are not html_escape(msg) as in the model", dict(rep, raw=raw_msgs[:10], model=[r[4] for r in mrows][:10]))
+            if got != want_m:
+                st["disagreements"] += 1
+                bad = [(g, w) for g, w in zip(got, want_m) if g != w][:2] or [("count", len(got), len(want_m))]
+                run.violation("index:" + hashlib.sha1(rep["results_xml"].encode()).hexdigest()[:10],
+                              "index.html rows differ from the model's index_rows: %s" % (bad,), dict(rep, script_rows=got[:30], model_rows=want_m[:30]),
+                              found_input=False)
+            elif len(raw_msgs) == len(mrows) and raw_msgs != [r[4] for r in mrows]:
+                run.violation("rawmsg:" + hashlib.sha1(rep["results_xml"].encode()).hexdigest()[:10],
+                              "message cells are not html_escape(msg) as in the model", dict(rep, raw=raw_msgs[:10], model=[r[4] for r in mrows][:10]), found_input=False)
+            raw_files = [x for x in RAW_FILE.findall(html_text) if x != "Could not generated due to UnicodeDecodeError"]
+            if sorted(set(raw_files)) != sorted(set(r[0] for r in mrows)):
+                run.violation("rawfile:" + hashlib.sha1(rep["results_xml"].encode()).hexdigest()[:10],
+                              "file header cells are not html_escape(file) as in the model", dict(rep, raw=raw_files[:10], model=sorted(set(r[0] for r in mrows))[:10]), found_input=False)
             # the property itself: every finding exactly once with file, line, id, severity, message
-            want_p = sorted((e["locs"][0][0] if e["locs"] else "", str(e["locs"][0][1]) if e["locs"] else "", e["id"],
+            def pline(e):
+                if not e["locs"] or e["locs"][0][0].endswith("*"):
+                    return ""      # no location / the script's own "not a real file" convention
+                return str(e["locs"][0][1])
+            want_p = sorted((e["locs"][0][0] if e["locs"] else "", pline(e), e["id"],
                              e["severity"] + (", inconcl." if e["inconclusive"] else ""), e["msg"]) for e in errs)
             if sorted(got) != want_p:
                 missing = [w for w in want_p if w not in got]
-                for w in missing:
-                    if any(ch in w[0] or ch in w[2] for ch in "<&"):
-                        known.setdefault("html-unescaped-file-or-id", (w, rep))
-                    elif dot and w[0] == "lat.c":
-                        known.setdefault("html-line-dropped-decode-error", (w, rep))
-                    elif w[0].endswith("*") and (w[0], "", w[2], w[3], w[4]) in got:
-                        pass  # names ending in '*' are the script's own convention for "no real file": line intentionally blank
-                    else:
-                        run.violation("prop:" + hashlib.sha1((rep["results_xml"] + repr(w)).encode()).hexdigest()[:10],
-                                      "index.html does not list finding %r once with its file, line, id, severity and message" % (w,), dict(rep, rows=got[:40]))
-                if not missing and len(got) != len(want_p):
+                for w in missing[:3]:
+                    run.violation("prop:" + hashlib.sha1((rep["results_xml"] + repr(w)).encode()).hexdigest()[:10],
+                                  "index.html does not list finding %r once with its file, line, id, severity and message" % (w,), dict(rep, rows=got[:40]))
+                if not missing:
                     run.violation("prop-count:" + hashlib.sha1(rep["results_xml"].encode()).hexdigest()[:10],
                                   "index.html has %d finding rows for %d findings" % (len(got), len(want_p)), dict(rep, rows=got[:40]))
             if len(run.samples) < 6 and errs:
@@ -297,10 +299,6 @@ def check(run, replay):
                                     "model": list(mrows[0]) if mrows else []})
     finally:
         shutil.rmtree(scratch, ignore_errors=True)
-    for key, (w, rep) in known.items():
-        what = {"html-unescaped-file-or-id": "file name / id %r is written into index.html without escaping; an HTML reader does not get it back" % (w,),
-                "html-line-dropped-decode-error": "finding %r in a source file that is not valid UTF-8 (with --source-dir=.) is listed without its line" % (w,)}[key]
-        run.violation(key, what, dict(rep, finding=list(w)))
 
 
 if __name__ == "__main__":
